@@ -4,7 +4,7 @@ import numpy as np
 from .. import core, gen
 
 PROP_FILE = 'Knee/Props/C19.lean'
-PROP_FILES = ['Knee/Props/C19.lean', 'Knee/Props/C19M.lean']
+PROP_FILES = ['Knee/Props/C19.lean', 'Knee/Props/C19M.lean', 'Knee/Props/C19S.lean']
 RULE = ('curves (dyadic families) x knee index sets K x expected point sets E (subsets of the curve\'s points, jittered points, duplicates competing for one '
         'knee, |K| != |E|, |K|+|E| <= n) x tolerances t from a grid and from the normalised distances of the input (exact ties distance == t) x 4 strategies. '
         'cm correspondence is oracle-fed (rows |x_K - px|/dx evaluated in float64 by the harness) and exact. Predicates on the REAL outputs: accounting '
